@@ -328,8 +328,9 @@ def run(ctx):
     gi = cands[0] if cands else ex
     for f_ in cands:
         gcfg = A.cfg(f_)
-        for n in [n for n in gcfg.nodes if n.kind == "return" and isinstance(n.stmt.value, ast.Name)]:
-            v_ = n.stmt.value.id
+        for n in [n for n in gcfg.nodes if n.kind == "return" and n.stmt.value is not None
+                  and not isinstance(n.stmt.value, ast.Constant)]:
+            v_ = norm_stmt(n.stmt.value).replace(" ", "")
             conds = set()
             for e, p, _ in gcfg.guards(n):
                 for a, t in decompose_guard(e, p):
